@@ -317,6 +317,10 @@ class EvalMixin:
                 t = base.t
                 builtin_kind = z3.Or(smt.is_str(t), z3.And(smt.is_ref(t), smt.CLS[Val.r(t)] < smt.FIRST_USER_CLS))
                 if self.feasible(st, builtin_kind):
+                    if attr in ("pop", "append", "extend", "insert", "remove", "clear", "add", "discard", "update", "setdefault", "sort", "reverse", "popitem"):
+                        # a mutator of a container of statically unknown kind: modelled as an arbitrary write to that
+                        # container's contents (checked against the frame), result unknown
+                        return self.non_none(st, base, node, lambda s1: k(s1, SV(smt.fresh("bm"), "func", ("bmethod", SV(base.t, "unknown-container"), attr))))
                     raise Unsupported(f".{attr} on a value of unknown kind (line {getattr(node, 'lineno', '?')})")
         if base.meta and base.meta[0] == "super":
             _, me, cls = base.meta
